@@ -29,6 +29,7 @@ echo "confirmed: demo_passes_clean=$clean_ok demo_fails_patched=$patched_fail su
 # our checks against a scratch copy of the repository with the patch (never /repo itself while background runs use it)
 unset CARGO_TARGET_DIR
 SCR=/tmp/deskset-scratch-repo
+[ -d $SCR ] || git -C /repo worktree add -q --detach $SCR HEAD
 cd $SCR && git checkout -q -- . && git apply $S/patch.diff || { echo "patch does not apply to scratch repo"; exit 2; }
 DET=""
 for C in $ID $EXTRA; do
